@@ -271,8 +271,8 @@ impl Property for C11 {
     }
     fn budget(&self, tier: Tier) -> u64 {
         match tier {
-            Tier::Quick => 200_000,
-            Tier::Thorough => 6_000_000,
+            Tier::Quick => 2_000_000,
+            Tier::Thorough => 40_000_000,
         }
     }
     fn generate(&self, seed: u64, run: u64, _tier: Tier, _avoid: &BTreeSet<String>) -> MacCase {
